@@ -332,11 +332,18 @@ impl<'r> Gen<'r> {
         let s = snap();
         let rid = self.fresh();
         let inst = if float {
+            let mut ops = vec![MOp::W(s.k_lit32, width)];
+            if self.rng.chance(1, 3) {
+                // the optional FP encoding operand (any declared enumerant)
+                let k = s.kind("FPEncoding");
+                let n = *self.rng.pick(&s.enums[&k].numbers);
+                ops.push(MOp::W(k, n));
+            }
             MInst {
                 opcode: s.op("TypeFloat"),
                 rtype: None,
                 rid: Some(rid),
-                ops: vec![MOp::W(s.k_lit32, width)],
+                ops,
             }
         } else {
             let sign = self.rng.below(2) as u32;
@@ -458,7 +465,21 @@ pub fn gen_stream(rng: &mut Rng, cfg: ProdCfg) -> Stream {
 pub fn plant_ext_inst(rng: &mut Rng, stream: &mut Stream) {
     let s = snap();
     let set_id = stream.header.bound + 1;
-    let name = *rng.pick(&["GLSL.std.450", "GLSL.std.450", "OpenCL.std", "OpenCL.std", "NonSemantic.DebugPrintf", "GLSL.std.451"]);
+    let base = *rng.pick(&["GLSL.std.450", "GLSL.std.450", "OpenCL.std", "OpenCL.std", "NonSemantic.DebugPrintf", "GLSL.std.451"]);
+    // exact name, or a near miss: a prefix of it, optionally continued with multi-byte / other characters
+    let name: String = if rng.chance(2, 3) {
+        base.to_string()
+    } else {
+        let k = rng.usize_below(base.len() + 1);
+        let mut n = base[..k].to_string();
+        for _ in 0..rng.below(4) {
+            n.push_str(*rng.pick(&["é", "€", "😀", ".", "x", "std", "1"]));
+        }
+        if rng.chance(1, 3) {
+            n.push_str(&base[k..]);
+        }
+        n
+    };
     let number = match rng.below(8) {
         0 => 0,
         1 => 1,
@@ -473,7 +494,7 @@ pub fn plant_ext_inst(rng: &mut Rng, stream: &mut Stream) {
         opcode: s.op("ExtInstImport"),
         rtype: None,
         rid: Some(set_id),
-        ops: vec![MOp::S(name.to_string())],
+        ops: vec![MOp::S(name)],
     };
     let mut ops = vec![MOp::W(s.k_idref, if rng.chance(7, 8) { set_id } else { set_id + 7 }), MOp::W(s.k_extinst, number)];
     for _ in 0..rng.below(4) {
